@@ -45,6 +45,33 @@ var ExtLists = [][]string{
 	{"z", ".gz"}, // overlapping suffixes
 	{".go", "Makefile", ".md"},
 	{""}, // empty string: every leaf
+	{".gz", ".md", ".gz"}, // a duplicate entry
+}
+
+// extShared holds, per process, ONE clone of each extension list that is handed to gtree for
+// every call (a caller re-using its slice / Option value), while the model always reads the
+// pristine ExtLists. A callee that modifies the caller's slice is thereby exposed on the next call.
+var extShared = func() [][]string {
+	out := make([][]string, len(ExtLists))
+	for i, l := range ExtLists {
+		if l != nil {
+			out[i] = append([]string{}, l...)
+		}
+	}
+	return out
+}()
+
+// sharedExt maps a pristine list to the shared clone given to gtree.
+func sharedExt(exts []string) []string {
+	if len(exts) == 0 {
+		return exts
+	}
+	for i, l := range ExtLists {
+		if len(l) == len(exts) && len(l) > 0 && &l[0] == &exts[0] {
+			return extShared[i]
+		}
+	}
+	return exts
 }
 
 // ExtAlphabet is the 2-letter alphabet of the exhaustive filesystem workloads.
@@ -98,7 +125,7 @@ func Options(cs *Case, ctx context.Context, target string) []gtree.Option {
 		o = append(o, gtree.WithDryRun())
 	}
 	if cs.O("ext") != "" {
-		o = append(o, gtree.WithFileExtensions(ExtOf(cs)))
+		o = append(o, gtree.WithFileExtensions(sharedExt(ExtOf(cs))))
 	}
 	if cs.O("massive") == "1" {
 		if ctx == nil {
